@@ -66,9 +66,9 @@ def _drive_sched(args):
             else:
                 rfiles.append(ipmc.write_file(msgs, enc, bc, blk[i]))
         # all instances are created up front
-        wf = [io.BytesIO(), io.BytesIO()]
+        wf = [drv.new_file(), drv.new_file()]
         ws = [mciipm.IpmWriter(wf[i], encoding=enc, iso_config=bc, blocked=blk[i]) for i in (0, 1)]
-        rs = [mciipm.IpmReader(io.BytesIO(rfiles[i]), encoding=enc, iso_config=bc, blocked=blk[2 + i]) for i in (0, 1)]
+        rs = [mciipm.IpmReader(drv.new_file(rfiles[i]), encoding=enc, iso_config=bc, blocked=blk[2 + i]) for i in (0, 1)]
         events = [ipmc.iev(3, 'given', b=rfiles[0]), ipmc.iev(4, 'given', b=rfiles[1])]
         pc = [0, 0, 0, 0]
         dead = [False] * 4
@@ -122,7 +122,7 @@ def _drive_files(args):
             k = max(1, len(msgs) // 2)
             msgs = [hdr] + msgs[:k] + [trl] + [dict(hdr, DE71=len(msgs) + 3)] + msgs[k:] + [dict(trl, DE71=2 * len(msgs) + 4)]
             n = len(msgs)
-        f = io.BytesIO()
+        f = drv.new_file()
         events = []
         try:
             if cfgspec[0] == 'pkgvar' and (tid % 2 or tid == ids[0]):
@@ -173,7 +173,7 @@ def _drive_sizes(args):
         msgs = [isoc.message_exact(n, codec), {'MTI': '1240', 'DE3': '000001'}, isoc.message_exact(60 + n % 40, codec)]
         if n % 3 == 0:
             msgs.insert(0, {'MTI': '1240', 'DE3': '999999', 'DE2': '5' * (n % 17 + 1)})
-        f = io.BytesIO()
+        f = drv.new_file()
         w = mciipm.IpmWriter(f, encoding=codec, iso_config=bc, blocked=blocked)
         events = []
         for m in msgs:
@@ -239,6 +239,12 @@ def run(rep, wd, tier, seed):
             for part in core.split(ids, 3):
                 jobs.append((seed, cfgspec, codec, part))
     outs = isocheck._pool(_drive_files, jobs)
+    # four threads at once, each writing and reading its own files under its own configuration and code page
+    tjobs = [(seed, cfgspec, codec, [1000 + 3 * i, 1001 + 3 * i, 1002 + 3 * i])
+             for i, (cfgspec, codec) in enumerate([(('pkg',), 'latin_1'), (('gen', 600 + seed), 'cp500'), (('pkg',), 'cp037'), (('pkgvar', 0), 'latin_1'),
+                                                   (('pkg',), 'cp500'), (('gen', 600 + seed), 'latin_1'), (('pkgvar', 0), 'cp500'), (('pkg',), 'latin_1')])]
+    jobs = jobs + tjobs
+    outs = outs + isocheck.mark_threaded(isocheck.threaded('harness.c06', '_drive_files', tjobs, procs=2))
     sizes = sorted({1012 * k + d for k in (1, 2, 3, 4, 5) for d in range(-14, 12) if 40 <= 1012 * k + d <= 5990})
     if tier == 'thorough':
         sizes = list(range(40, 5991, 1))[::3] + sizes
